@@ -5,7 +5,7 @@ import subprocess, sys, os, tempfile, shutil, glob, threading
 from concurrent.futures import ThreadPoolExecutor
 env=dict(os.environ,GOFLAGS='-mod=mod',GOPROXY='off',GOSUMDB='off',GOTOOLCHAIN='local'); env.pop('GOWORK',None)
 def keys(root):
-    out=subprocess.run(['/verif/bin/slugcheck','-all','-root',root],capture_output=True,text=True,env=env).stdout
+    out=subprocess.run([os.environ.get('SLUGCHECK_BIN','/verif/bin/slugcheck'),'-all','-root',root],capture_output=True,text=True,env=env).stdout
     if 'ALLDONE' not in out: return None
     return set(l[8:] for l in out.splitlines() if l.startswith('FAILKEY '))
 base=keys('/repo')
